@@ -1009,7 +1009,8 @@ def run(ctx):
         "sampler checkpoints are abstract: complete / partial / absent; dynesty writes its own checkpoint atomically",
         "every run that finds no completed result performs at least one sampling round; the exception - a BFGS/LBFGS "
         "checkpoint that already used up maxiter is returned as the result without a further scipy call - is exercised "
-        "(plan lbfgs_cap) against the oracle clauses and the trace minus that one checkpoint write",
+        "(plan lbfgs_cap, output setting search_internal off, histories one run deep) against the oracle clauses and the "
+        "trace minus that one checkpoint write",
         "the model, search settings and unique tag are the same in every run of a history",
     ]
     rng = ctx.rng
@@ -1046,6 +1047,8 @@ def run(ctx):
                 # after a resume from a budget-spent BFGS checkpoint the model's content labels are no longer the code's)
                 plans.append((kind, prior, c, budget, ("empty", "half", "random"), 2 if not dyn and kind != "lbfgs_cap" else 1, 3))
     for kind, prior, (rm, cs, ki), budget, modes, depth, chains in plans:
+        if kind == "lbfgs_cap":
+            ki = False  # (with the search internal kept, the archive of a capped run differs from the model's: not modelled)
         sc = Scenario(ctx, kind, prior, rm, cs, ki)
         ctx.hit("plan:" + sc.name)
         t0 = time.time()
